@@ -26,7 +26,7 @@ REQUIRED = {'renames_nontrivial': {'quick': 300, 'thorough': 3500}, 'formulas_ch
             'entity_positions_required': {'quick': 400, 'thorough': 5000}, 'parsed_form_checks': {'quick': 10000, 'thorough': 120000},
             'unparsable_checked': {'quick': 300, 'thorough': 4000}, 'resources_checked': {'quick': 3000, 'thorough': 40000},
             'user_attributes_checked': {'quick': 700, 'thorough': 9000}, 'witness_runs': {'quick': 1, 'thorough': 1}}
-SHARD_TIMEOUT = {'quick': 240, 'thorough': 1800}
+SHARD_TIMEOUT = {'quick': 600, 'thorough': 3000}
 
 
 def plan(tier, seed):
